@@ -392,6 +392,59 @@ func c06(r *engine.Report, p *engine.Program) {
 		r.Check("R6-single-writer", "Netceptor."+x.field+": writers", token.NoPos, len(bad) == 0,
 			fmt.Sprintf("%d store(s) outside the constructor, all in {%s}", n, x.allow), "written in "+strings.Join(bad, ", "))
 	}
+	// R8 the relay of an ordinary update (no duplicate notice) comes after its acceptance, and a
+	// duplicate notice rewrites the stored epoch/sequence only for exactly the suspected run
+	{
+		sdup := fld("routingUpdate", "SuspectedDuplicate")
+		isSD := func(v ssa.Value) bool { f, b := engine.FieldOfLoad(v); return f == sdup && b == ssa.Value(param0) }
+		notice, ordinary := engine.IntCmpEdges(hru, isSD, 0, token.NEQ, 0)
+		var epochStores []ssa.Instruction
+		for _, a := range engine.FieldAccessesIn(hru, nEpoch) {
+			if a.Kind == engine.AccStore {
+				epochStores = append(epochStores, a.Instr)
+			}
+		}
+		for _, a := range engine.FieldAccessesIn(hru, nSeq) {
+			if a.Kind == engine.AccStore {
+				epochStores = append(epochStores, a.Instr)
+			}
+		}
+		isStore := func(in ssa.Instruction) bool { return isOneOf(in, epochStores) }
+		isRelay := func(in ssa.Instruction) bool { return in == ssa.Instruction(relay) }
+		okOrd := len(ordinary) > 0 && len(notice) > 0 && len(epochStores) >= 4
+		var hit ssa.Instruction
+		for _, e := range ordinary {
+			if h := reachFromEdge(hru, e, nil, isStore, isRelay); h != nil {
+				okOrd = false
+				hit = h
+			}
+		}
+		// and the relay is not reachable before the notice/ordinary decision at all
+		if okOrd {
+			cut := engine.EdgeSet{}.Add(notice...).Add(ordinary...)
+			if h := engine.Reach(hru, nil, cut, nil, isRelay); h != nil {
+				okOrd = false
+				hit = h
+			}
+		}
+		r.Check("R8-relay-after-acceptance", "handleRoutingUpdate: an ordinary update is relayed only after it was recorded as the newest of its origin", relay.Pos(), okOrd,
+			"from the SuspectedDuplicate == 0 edge the relay is reachable only through the store of the update's epoch/sequence; before that decision it is not reachable at all",
+			"an ordinary update can be relayed without having been accepted ("+descInstr(p, hit)+"): stale or replayed updates with a fresh UpdateID are dropped locally but still flooded to every other neighbour")
+		// notice branch: stores only on stored epoch == suspected epoch
+		eq, _ := valEqEdges(hru, fieldLoadIs(nEpoch), isSD)
+		okN := len(eq) > 0
+		if okN {
+			cut := engine.EdgeSet{}.Add(eq...)
+			for _, e := range notice {
+				if h := reachFromEdge(hru, e, cut, nil, isStore); h != nil {
+					okN = false
+				}
+			}
+		}
+		r.Check("R8-relay-after-acceptance", "handleRoutingUpdate: a duplicate notice rewrites the stored epoch/sequence only if the stored epoch is exactly the suspected one", hru.Pos(), okN,
+			"from the SuspectedDuplicate != 0 edge, with the edges stored.Epoch == ri.SuspectedDuplicate removed, no store of epoch/sequence is reachable",
+			"a duplicate notice can rewrite the stored epoch/sequence of its origin although the stored epoch is not the suspected one (e.g. >=): a late notice from an old run rewinds the record, after which stale updates of the old run are accepted and relayed")
+	}
 	// R7 the picture of an origin is never forgotten: no entry of knownNodeInfo is deleted (a
 	// delayed older update arriving afterwards would be accepted as first contact)
 	{
